@@ -169,7 +169,8 @@ DIP_CHECKS = {
     "L1_zero_on_equal": DIP_LET + "if hap_eqb p0 p1 || hap_eqb p0 (complement p1) then pe_eqb (pe5 e) pe_zero else true",
     "L1_label_invariance": DIP_LET + "forallb (fun r => pe_eqb (pe5 r) (pe5 e)) relabel",
     "L1_bed_count": DIP_LET + "Nat.eqb (length bed) (pe_switches (pe5 e))",
-    "L1_agreement": DIP_LET + "match agree with Some v => Nat.eqb (zeros v) (pe_hamming (pe5 e)) && Nat.eqb (length v) (length p0) | None => true end",
+    "L1_agreement": DIP_LET + "match agree with Some v => Nat.eqb (zeros v) (pe_hamming (pe5 e)) | None => true end",
+    "L1_agreement_shape": DIP_LET + "match agree with Some v => Nat.eqb (length v) (length p0) | None => true end",
     # ---- L2: implementation = model
     "L2_compare_block": DIP_LET + "opt_pe_eqb (compare_block_dip ph0 ph1) (pe5 e)",
     "L2_switch_flips": DIP_LET + "Nat.eqb (fst (compute_switch_flips p0 p1)) (fst sf) && Nat.eqb (snd (compute_switch_flips p0 p1)) (snd sf)",
@@ -182,13 +183,13 @@ DIP_SIG = {
     "L1_switches_def": "compare:switches-not-minimum", "L1_sf_identity": "compare:switchflip-identity",
     "L1_hamming_def": "compare:hamming-not-minimum", "L1_diff_genotypes": "compare:diff-genotypes",
     "L1_zero_on_equal": "compare:nonzero-on-equal", "L1_label_invariance": "compare:label-dependent",
-    "L1_bed_count": "compare:bed-count", "L1_agreement": SIG_F1,
+    "L1_bed_count": "compare:bed-count", "L1_agreement": SIG_F1, "L1_agreement_shape": "compare:longest-block-shape",
 }
 
 
 def check_diploid(ctx, pairs, label, shard=600):
     cases, raws = [], []
-    for p0, p1 in pairs:
+    for p0, p1 in dict.fromkeys(pairs):
         t, raw = dip_case(p0, p1)
         cases.append(t)
         raws.append(raw)
@@ -201,7 +202,7 @@ def check_diploid(ctx, pairs, label, shard=600):
     for lab, sig in DIP_SIG.items():
         idx = failing[lab]
         # report the shortest few inputs per class
-        for i in sorted(idx, key=lambda i: (len(raws[i]["p0"]), i))[:3]:
+        for i in sorted(idx, key=lambda i: (len(raws[i]["p0"]), i))[:2]:
             r = raws[i]
             ctx.violation(sig, f"{lab} fails for compare on h0={r['p0']} h1={r['p1']}: compare_block -> {r['e']}, "
                                f"bed={r['bed']}, longest-block agreement={r['agree']}"
@@ -311,7 +312,8 @@ def poly_case(ph0, ph1, with_perms=True):
               (Some((NN(cb[0]), NN(cb[1]), NN(cb[2]), NN(cb[3]), Nat(cb[4]))) if cb else Raw("(@None " + PT5 + ")")),
               L([(NN(a), NN(b)) for a, b in perm_sf], "(N * N)"),
               L([(NN(c[0]), NN(c[1]), NN(c[2]), NN(c[3]), Nat(c[4])) for c in perm_cb], PT5)))
-    raw = dict(ph0=ph0, ph1=ph1, runs=[r[:4] for r in runs], compare_block=cb, perm_sf=sorted(set(perm_sf)))
+    raw = dict(ph0=ph0, ph1=ph1, runs=[r[:4] for r in runs], compare_block=cb, perm_sf=sorted(set(perm_sf)),
+               perm_cb_sf=sorted(set((c[2], c[3]) for c in perm_cb)))
     return t, raw
 
 
@@ -330,7 +332,8 @@ POLY_CHECKS = {
     "L1_perm_invariance_cost": POLY_LET + "match runs with (_, _, s, f, _) :: _ => forallb (fun sf => N.eqb (fst sf + snd sf) (s + f)) perm_sf | [] => false end",
     "L1_perm_invariance_block": POLY_LET + "match cb with Some (a, b, s, f, d) => forallb (fun x => let '(a', b', s', f', d') := x in "
                                 "N.eqb a a' && N.eqb b b' && N.eqb (s' + f') (s + f) && Nat.eqb d d') perm_cb | None => true end",
-    "L1_perm_invariance_decomposition": POLY_LET + "match runs with (_, _, s, f, _) :: _ => forallb (fun sf => N.eqb (fst sf) s && N.eqb (snd sf) f) perm_sf | [] => false end",
+    "L1_perm_invariance_decomposition": POLY_LET + "match cb with Some (a, b, s, f, d) => forallb (fun x => let '(a', b', s', f', d') := x in "
+                                        "N.eqb s s' && N.eqb f f') perm_cb | None => true end",
     "L1_block_defs": POLY_LET + "match cb with Some (a, b, s, f, d) => "
                      "let m := filter (fun c => geno_eqb (fst c) (snd c)) cs in let big := (2 * N.of_nat n * N.of_nat k + 1)%N in "
                      "N.eqb b (poly_hamming_num r0 r1) && N.eqb (s + f) (if small then sf_spec 1 1 k cs else sf_dp 1 1 k cs) && "
@@ -413,7 +416,7 @@ def check_poly(ctx, blocks, label, shard=40):
                 r = raws[i]
                 ctx.violation(sg, f"{lab} fails for polyploid block phasing0={r['ph0']} phasing1={r['ph1']}: "
                                   f"(switch_cost, flip_cost, switches, flips)={r['runs']} compare_block*ploidy={r['compare_block']} "
-                                  f"decompositions over row permutations*ploidy={r['perm_sf']}"
+                                  f"(sf.switches, sf.flips)*ploidy of compare_block over all row permutations={r['perm_cb_sf']}"
                                   + (f" ({len(ii)} such inputs in this stream)" if len(ii) > 1 else ""),
                               {"kind": "poly", "ph0": r["ph0"], "ph1": r["ph1"]})
             ctx.tally(f"poly.{label}.fail.{lab}.{sg}", len(ii))
@@ -755,8 +758,9 @@ CLI2_CHECKS = {
     "L1_sf_identity": CLI2_LET + "Nat.eqb (pe_switches (pe5 tot)) (fst (pe_sf (pe5 tot)) + 2 * snd (pe_sf (pe5 tot))) && "
                                  "Nat.eqb (pe_switches (pe5 lb)) (fst (pe_sf (pe5 lb)) + 2 * snd (pe_sf (pe5 lb)))",
     "L1_bed_count": CLI2_LET + "Nat.eqb (length bed) (pe_switches (pe5 tot))",
-    "L1_agreement": CLI2_LET + "Nat.eqb (zeros lagree) (pe_hamming (pe5 lb)) && Nat.eqb (length lagree) (length lpos) && "
-                               "(Nat.eqb (length lpos) 0 || Nat.eqb (length lpos) (S lpairs))",
+    "L1_agreement": CLI2_LET + "Nat.eqb (zeros lagree) (pe_hamming (pe5 lb))",
+    "L1_agreement_shape": CLI2_LET + "Nat.eqb (length lagree) (length lpos) && "
+                                     "(Nat.eqb (length lpos) 0 || Nat.eqb (length lpos) (S lpairs))",
     # L2: every column = model
     "L2_row": CLI2_LET + "match compare2 t0 t1 with (nb', nv', Some s) => "
               "Nat.eqb nb nb' && Nat.eqb nv nv' && Nat.eqb pairs (ps_pairs s) && pe_eqb (pe5 tot) (ps_total s) && "
@@ -839,6 +843,10 @@ def check_cli(ctx, scenarios, label):
                               "intersection block contains a phased multi-allelic heterozygous call such as 1|2", replay)
                 ctx.count(("cli", label, si), nontrivial=True)
                 continue
+            if k > 2 and n > 2 and "Traceback" not in se:
+                ctx.tally("cli.polyploid_triple.rejected_cleanly")       # a clean rejection is fine
+                ctx.count(("cli", label, si), nontrivial=False)
+                continue
             if k > 2 and n > 2 and "assert ploidy == 2" in se:
                 ctx.violation(SIG_TRIPLE_POLY, f"whatshap compare --ploidy {k} with {n} VCFs ends in AssertionError "
                               "(run_compare: assert ploidy == 2) after the pairwise comparisons of the first chromosome", replay)
@@ -920,7 +928,8 @@ def check_cli(ctx, scenarios, label):
     fail_on_errors(ep, "cli polyploid")
     fm, em = eval_checks("C11climw", HEADER, MW_CHECKS, casesmw, shard=40) if casesmw else ({k: [] for k in MW_CHECKS}, [])
     fail_on_errors(em, "cli multiway")
-    sigs = {"L1_sf_identity": "compare:switchflip-identity", "L1_bed_count": "compare:bed-count", "L1_agreement": SIG_F1}
+    sigs = {"L1_sf_identity": "compare:switchflip-identity", "L1_bed_count": "compare:bed-count", "L1_agreement": SIG_F1,
+            "L1_agreement_shape": "compare:longest-block-shape"}
     for lab, sig in sigs.items():
         for i in f2[lab][:4]:
             si, c, a, b, row, lbv, bed = meta2[i]
